@@ -23,7 +23,7 @@ CLAIM = dict(
          "nested functor calls vs the nested direct view calls given by an independent stack model; (C) view trees of depth 1..4: "
          "get_function_operands addresses vs the leaves in DFS order, apply(get_function_composition, operands) vs the view, and "
          "get_compute_graph node count / unique ids / leaf addresses / ordered operands / output shapes / edge set (networkx isomorphism) vs "
-         "the expression tree. A case whose direct view call alone dies or is Nothing is not counted. Held-on-observed, not a proof.",
+         "the expression tree; independently of the tree every dumped graph must be internally consistent (each operation's recorded operand ids == its in-edges, no edge into an operand node, acyclic), which also decides expressions whose graph is known not to be the expression tree (sibling sub-views sharing an upstream node are in the deterministic core). A case whose direct view call alone dies or is Nothing is not counted. Held-on-observed, not a proof.",
     note="Trusted: the generator's stack model and expression tree, networkx, " + SAN + ". Expressions that do not compile on the "
          "unchanged tree are outside the allow-list and are not generated (listed under 'rejected' in vf/c14_supported.json); a TU that "
          "stops compiling is inconclusive. The reference for values is the library's own direct view call (equivalence property), "
